@@ -184,7 +184,7 @@ def run(pid, tier):
                 traces.append(out)
                 cmds.append([drv, path, str(s), str(shards), str(WHAT[pid]), out])
         vlib.run_many(cmds, timeout=1200)
-        events, rejects, _ = vlib.validate(traces, "StoreTrace.tla", "StoreTrace.cfg", xmx="3g", timeout=1500)
+        events, rejects, notes = vlib.validate(traces, "StoreTrace.tla", "StoreTrace.cfg", xmx="3g", timeout=1500)
         negc = negative_control(traces, pid)
         classes, samples = vlib.classes_of(traces, key)
         selinfo = selector_agreement(traces, predicted) if predicted else None
@@ -199,6 +199,10 @@ def run(pid, tier):
                             "before a buffer are not observed",
                             "inputs inside a scenario class are sampled by seed, not enumerated"],
                            extra={"negative_control": negc, "tiers": tiers, "scenarios": nsc,
-                                  "selector_recipes": selinfo})
+                                  "selector_recipes": selinfo,
+                                  "wire_format": {"what": "Enc events of FOR/RLE/delta/group/dict with <= 40 values compared byte for "
+                                                          "byte with Wire.tla (unclaimed conformance fact, never a violation)",
+                                                  "checked": notes.get("wire-checked", 0),
+                                                  "drift": {k: v for k, v in notes.items() if k.startswith("wire-drift")}}})
     finally:
         shutil.rmtree(work, ignore_errors=True)
